@@ -1,1 +1,19 @@
 import CaddyModel.C11.Props
+open CaddyModel.C11
+#print axioms coverage
+#print axioms certs_only_qualifying
+#print axioms internal_issuer_for_nonpublic
+#print axioms http_only_server_gets_nothing
+#print axioms redirect_port_rule
+#print axioms redirect_exists_partial
+#print axioms only_catchAll_when_no_certs
+#print axioms redirect_position
+#print axioms redirect_port_deterministic
+#print axioms deterministic_partial
+#print axioms server_flags
+#print axioms policies_same
+#print axioms deterministic_full_fails
+#print axioms receiver_depends_on_order
+#print axioms effective_depends_on_route_order
+#print axioms redirect_port_full_fails
+#print axioms redirect_exists_full_fails
